@@ -45,6 +45,10 @@ def run(tier):
         cap = rng.choice([4, 8, 16])
         scen.append({"strategy": "expand", "data": cap, "max": cap, "mininc": 2, "producers": rng.choice([1, 1, 2]), "rows": rng.choice([1000, 2000]), "slowsink": rng.choice([20, 30]),
                      "seed": rng.randrange(1 << 30), "perturb": False})
+    # the lossless configuration under a consumer stuck for SECONDS: block strategy without a timeout, a tiny buffer, the sink asleep for 6.5 s on
+    # its first result - the producers wait as long as it takes, nothing is dropped (run side by side: the wall time is one stall)
+    for data, prods in ((1, 1), (2, 2)) if quick else ((1, 1), (2, 2), (4, 1), (1, 3)):
+        scen.append({"strategy": "block", "data": data, "max": 64, "mininc": 2, "producers": prods, "rows": 6, "stall_ms": 6500, "seed": rng.randrange(1 << 30), "perturb": False})
     seqfam.run_scenarios(res, scen, "TraceIngest", spec_dir=PIPE, tag="ingest", sub="ingest")
     res.cov["exhaustive"] = False
     res.cov["distinct_nontrivial"] = len({json.dumps(s, sort_keys=True) for s in scen})
